@@ -35,6 +35,16 @@ impl Subj {
       Subj::Replay(s) => s.observable(),
     }
   }
+  fn terminal(&self, t: &Step) {
+    match (self, t) {
+      (Subj::Plain(s), Step::E(e)) => s.error(mk_err(*e)),
+      (Subj::Plain(s), _) => s.complete(),
+      (Subj::Behavior(s), Step::E(e)) => s.error(mk_err(*e)),
+      (Subj::Behavior(s), _) => s.complete(),
+      (Subj::Replay(s), Step::E(e)) => s.error(mk_err(*e)),
+      (Subj::Replay(s), _) => s.complete(),
+    }
+  }
 }
 
 #[derive(Clone, Debug)]
@@ -64,6 +74,9 @@ impl Family for C12 {
       // -1 = absent; otherwise number of scheduling points the task waits before acting
       ("late_subscriber_wait", Json::Int(if rng.below(4) != 0 { rng.below(10) as i64 } else { -1 })),
       ("second_late_subscriber_wait", Json::Int(if rng.below(4) == 0 { rng.below(10) as i64 } else { -1 })),
+      ("third_late_subscriber_wait", Json::Int(if rng.below(8) == 0 { rng.below(10) as i64 } else { -1 })),
+      // producer 0 signals a terminal after its items (single producer only)
+      ("terminal", Json::str(if np == 1 { *rng.pick(&["none", "none", "complete", "complete", "error"]) } else { "none" })),
       ("unsubscriber_wait", Json::Int(if rng.below(2) == 0 { rng.below(10) as i64 } else { -1 })),
       ("cb_probes", Json::Int(rng.below(2) as i64)),
       ("via_map", Json::Bool(rng.below(4) == 0)),
@@ -81,6 +94,16 @@ impl Family for C12 {
     let steady = w.b("steady");
     let late = w.i("late_subscriber_wait");
     let late2 = w.i("second_late_subscriber_wait");
+    let late3 = if w.get("third_late_subscriber_wait").is_some() { w.i("third_late_subscriber_wait") } else { -1 };
+    let terminal = match w.get("terminal").and_then(|x| x.as_str()) {
+      None | Some("none") => None,
+      Some("complete") => Some(Step::C),
+      Some("error") => Some(Step::E(6)),
+      _ => return RunOut::invalid(),
+    };
+    if terminal.is_some() && counts.len() != 1 {
+      return RunOut::invalid();
+    }
     let unsub = w.i("unsubscriber_wait");
     let probes = w.i("cb_probes").clamp(0, 2) as u32;
     let via_map = w.b("via_map");
@@ -88,11 +111,15 @@ impl Family for C12 {
     let rec_a = Recorder::with_probes(probes);
     let rec_b = Recorder::with_probes(probes);
     let rec_b2 = Recorder::with_probes(probes);
+    let rec_b3 = Recorder::with_probes(probes);
+    let term_stamp: Arc<Mutex<Option<(u64, u64)>>> = Arc::new(Mutex::new(None));
     let rec_c = Recorder::with_probes(probes);
     let pushes: Arc<Mutex<Vec<Push>>> = Arc::new(Mutex::new(Vec::new()));
     // (subscribe start, subscribe end) of B / B2; (unsubscribe start, end) of C
-    let stamps: Arc<Mutex<[Option<(u64, u64)>; 3]>> = Arc::new(Mutex::new([None; 3]));
+    // indices: 0 = B, 1 = B2, 2 = C (unsubscribe), 3 = B3
+    let stamps: Arc<Mutex<[Option<(u64, u64)>; 4]>> = Arc::new(Mutex::new([None; 4]));
     let (ra, rb, rb2, rc, pu, stp, sc) = (rec_a.clone(), rec_b.clone(), rec_b2.clone(), rec_c.clone(), pushes.clone(), stamps.clone(), scripts.clone());
+    let (rb3, ts2, term2) = (rec_b3.clone(), term_stamp.clone(), terminal.clone());
     let kind2 = kind.clone();
     let res = rt::run(cfg, move || {
       let sbj = match kind2.as_str() {
@@ -106,6 +133,7 @@ impl Family for C12 {
       let mut hs = Vec::new();
       for (p, script) in sc.into_iter().enumerate() {
         let (sbj, pu) = (sbj.clone(), pu.clone());
+        let (term, ts) = (if p == 0 { term2.clone() } else { None }, ts2.clone());
         hs.push(rt::spawn_harness(&format!("producer{}", p), move || {
           for item in script {
             let s = rt::seq();
@@ -113,9 +141,15 @@ impl Family for C12 {
             let e = rt::seq();
             pu.lock().unwrap().push(Push { item, s, e });
           }
+          if let Some(t) = term {
+            let s = rt::seq();
+            sbj.terminal(&t);
+            let e = rt::seq();
+            *ts.lock().unwrap() = Some((s, e));
+          }
         }));
       }
-      for (k, (wait, rec)) in [(late, rb), (late2, rb2)].into_iter().enumerate() {
+      for (k, (wait, rec)) in [(0usize, (late, rb)), (1usize, (late2, rb2)), (3usize, (late3, rb3))] {
         if wait >= 0 {
           let (sbj, stp) = (sbj.clone(), stp.clone());
           let obs = obs.clone();
@@ -163,12 +197,12 @@ impl Family for C12 {
     for p in &pushes {
       history.push(format!("{:>4}..{:<4} push {}", p.s, p.e, p.item));
     }
-    for (n, r) in [("A(steady)", &rec_a), ("B(late)", &rec_b), ("B2(late)", &rec_b2), ("C(unsubscribed)", &rec_c)] {
+    for (n, r) in [("A(steady)", &rec_a), ("B(late)", &rec_b), ("B2(late)", &rec_b2), ("B3(late)", &rec_b3), ("C(unsubscribed)", &rec_c)] {
       for e in r.events() {
         history.push(format!("{:>4}..{:<4} {} gets {}", e.seq_in, e.seq_out, n, e.ev.show()));
       }
     }
-    for (i, n) in ["B subscribe", "B2 subscribe", "C unsubscribe"].iter().enumerate() {
+    for (i, n) in ["B subscribe", "B2 subscribe", "C unsubscribe", "B3 subscribe"].iter().enumerate() {
       if let Some((s, e)) = stamps[i] {
         history.push(format!("{:>4}..{:<4} {}", s, e, n));
       }
@@ -177,9 +211,37 @@ impl Family for C12 {
     if let Some(o) = outcome_violation(&res, blame) {
       v.push(o);
     } else {
-      for r in [&rec_a, &rec_b, &rec_b2, &rec_c] {
-        if r.events().iter().any(|e| e.ev.is_terminal()) {
-          v.push(Violation::new("unexpected-terminal", blame, format!("an observer received a terminal although none was signalled: {}", r.shown())));
+      let term_at = *term_stamp.lock().unwrap();
+      let want_term: Option<Ev> = terminal.as_ref().map(|t| match t {
+        Step::E(e) => Ev::Error(*e),
+        _ => Ev::Complete,
+      });
+      for (name, r, stamp) in [("A", &rec_a, None), ("B", &rec_b, stamps[0]), ("B2", &rec_b2, stamps[1]), ("B3", &rec_b3, stamps[3]), ("C", &rec_c, None)] {
+        let evs = r.events();
+        let terms: Vec<&Rec> = evs.iter().filter(|e| e.ev.is_terminal()).collect();
+        match (&want_term, term_at) {
+          (None, _) => {
+            if !terms.is_empty() {
+              v.push(Violation::new("unexpected-terminal", blame, format!("observer {} received a terminal although none was signalled: {}", name, r.shown())));
+            }
+          }
+          (Some(t), Some((ts, _te))) => {
+            if terms.len() > 1 || terms.iter().any(|x| x.ev != *t) || crate::rec::contract_breach(&evs).is_some() {
+              v.push(Violation::new("terminal-wrong", blame, format!("observer {}: the producer signalled {} once; the observer saw {}", name, t.show(), r.shown())));
+            }
+            // who must get it: the steady observer; a late one that had subscribed before the
+            // terminal call started; with a ReplaySubject every observer that subscribed at all
+            let subscribed_before = match (name, stamp) {
+              ("A", _) => steady,
+              ("C", _) => false,
+              (_, Some((_, s1))) => s1 < ts || kind == "replay",
+              _ => false,
+            };
+            if subscribed_before && terms.is_empty() {
+              v.push(Violation::new("terminal-lost", blame, format!("observer {} was subscribed when the producer signalled {} (at {}), but never received it: {}", name, t.show(), ts, r.shown())));
+            }
+          }
+          _ => {}
         }
       }
       let dup = |xs: &[i64]| -> Option<i64> {
@@ -210,7 +272,8 @@ impl Family for C12 {
         }
       }
       // B, B2: concurrent subscribe
-      for (k, (bx, label)) in [(&b, "B"), (&b2, "B2")].into_iter().enumerate() {
+      let b3 = ints(&rec_b3);
+      for (k, (bx, label)) in [(0usize, (&b, "B")), (1usize, (&b2, "B2")), (3usize, (&b3, "B3"))] {
         let (s0, s1) = match stamps[k] {
           Some(x) => x,
           None => continue,
@@ -219,7 +282,15 @@ impl Family for C12 {
         let mut v0: Option<i64> = None;
         if kind == "behavior" {
           if items.is_empty() {
-            v.push(Violation::new("lost", blame, format!("late subscriber {} of a BehaviorSubject received no value at all", label)));
+            // a subscriber that arrives after the terminal is handed the stored terminal only
+            let rec_k = match k {
+              0 => &rec_b,
+              1 => &rec_b2,
+              _ => &rec_b3,
+            };
+            if !rec_k.events().iter().any(|e| e.ev.is_terminal()) {
+              v.push(Violation::new("lost", blame, format!("late subscriber {} of a BehaviorSubject received no value at all", label)));
+            }
             continue;
           }
           v0 = Some(items.remove(0));
